@@ -106,12 +106,14 @@ def run(ctx):
     ctx.ob('C13.overflow-flag', 'USBStreamOutEndpoint.overflow', ok, ov[0].loc if ov else None,
            'a byte refused by a full FIFO sets overflow; commit/discard clears it: %s' % [q.fmt(a) for a in ov])
     # (d) framing bits
-    wdat = {a.lhs.canon(): a.rhs.canon() for a in ir.drivers('fifo.write_data', exact=True)}
-    want = {'fifo.write_data[0:8]': 'boundary_detector.processed_stream.payload',
-            'fifo.write_data[8:9]': 'boundary_detector.last & ~((self._max_packet_size - 1) == rx_cnt)',
-            'fifo.write_data[9:10]': 'boundary_detector.first & ~transfer_active'}
+    wdat = {a.lhs.canon(): a.rhs for a in ir.drivers('fifo.write_data', exact=True)}
+    FULLPKT = '(self._max_packet_size - 1) == rx_cnt'
+    want = {'fifo.write_data[0:8]': {('boundary_detector.processed_stream.payload', True)},
+            'fifo.write_data[8:9]': {('boundary_detector.last', True), (FULLPKT, False)},
+            'fifo.write_data[9:10]': {('boundary_detector.first', True), ('transfer_active', False)}}
     for k_, v_ in want.items():
-        ctx.ob('C13.framing', 'USBStreamOutEndpoint.' + k_, wdat.get(k_) == v_, None, '%s <= %s (found %s)' % (k_, v_, wdat.get(k_)))
+        got = q.conj(wdat[k_]) if k_ in wdat else None
+        ctx.ob('C13.framing', 'USBStreamOutEndpoint.' + k_, got == v_, None, '%s <= AND of %s (found %s)' % (k_, sorted(v_), got and sorted(got)))
     ta = ir.drivers('transfer_active', exact=True)
     ok = len(ta) == 1 and ta[0].rhs.canon() == '(self._max_packet_size - 1) == rx_cnt' and q.atoms(ta[0]) == {('fifo.write_en', True), ('boundary_detector.last', True)}
     ctx.ob('C13.framing', 'USBStreamOutEndpoint.transfer_active', ok, ta[0].loc if ta else None, 'a transfer stays active exactly after a full-size packet: %s' % [q.fmt(a) for a in ta])
